@@ -45,6 +45,13 @@ PROPS = {
           "against a math/big oracle: result = floor(a*min(fs,fa)/max(ts,ta)) (floor(a*fs/ts) before PIP-10), error iff a rate (or with PIP-10 an average) "
           "is zero or the quotient exceeds int64, and out*toSpot <= in*fromSpot. chain level: see evidence classes. Non-trivial = convertible case; distinct by tuple.",
           quick=(4, 40), thorough=(16, 3000), timeout=(300, 2400)),
+ "C01": P("TestC01", "exploration",
+          "rapid generates 2.0.2+ chains crossing two snapshot heights with 2-5 holders of exactly equal stake (identical conversions executed at the same rates; total stake below "
+          "or above the 4500x144 PEG cap so that the proportional dust is non-zero), other holders, transfers between the snapshots, plus general chains; every case is replayed "
+          "twice in-process and in 2 (quick) / 5 (thorough) fresh OS processes (own map hash seeds, different wall-clock second, entry-fetch workers released in a different order). "
+          "Oracle: all canonical ledger dumps (every table of the observation point, row ids and pn_sync_version.unix_timestamp excluded) are byte-identical. "
+          "Non-trivial = the chain contains >= 2 holders with equal stake at a paying snapshot; distinct by (start, tie shape, chain size).",
+          quick=(8, 8), thorough=(16, 150), timeout=(600, 3000)),
 }
 
 ALL = ["C%02d" % i for i in range(1, 21)]
@@ -62,6 +69,9 @@ TEXT = {
  "C07": {"technique": "property-based testing (rapid) with a math/big oracle for Convert; model-based chain check for execution height and rates used",
          "level_text": "Exploration: 10^4-10^6 boundary-biased conversion tuples per run against an exact big-integer oracle, plus generated chains checked against the reference model for which block's rates a held conversion receives.",
          "level_note": "Trusted: math/big. Chain level keeps the PIP-10 window free of ungraded heights (C09's known finding)."},
+ "C01": {"technique": "property-based testing (rapid tie-rich chains); differential between independent replays of the real daemon (in-process and in fresh OS processes)",
+         "level_text": "Exploration: every generated chain is synced by 4-7 independent daemon instances and their full ledger dumps compared byte for byte.",
+         "level_note": "Map-order and scheduling variation comes from Go's per-range randomisation, fresh processes and yield jitter in the fake node; sort stability of the Go runtime itself is not varied. Legacy-bank request ties are generated by C16's chains."},
 }
 
 _BUILT = set(PROPS)
